@@ -47,17 +47,19 @@ def gen_device(rng):
     return dev, blocks
 
 
-def gen_info_case(rng, style):
+def gen_info_case(rng, style, early=False):
     dev, blocks = gen_device(rng)
     plan = []
     if style == 'faulty' and rng.random() < 0.3:
         plan = [rng.randrange(1, 256) if rng.random() < 0.08 else 0 for _ in range(60)]
     rig = c06_info.InfoRig(plan, dev, blocks)
+    rig.early = early
     events, delivered = [], set()
 
     def do(ev):
         events.append(ev)
         rig.do(ev)
+        delivered.update(rig.early_done)
 
     do(['F', rng.random() < 0.85])
     ows = [i for i, d in enumerate(dev) if d[0] == 1]
@@ -96,7 +98,7 @@ def gen_info_case(rng, style):
             break
         delivered.add(undel[0])
         do(['D', undel[0]])
-    return {'kind': 'info', 'plan': plan, 'dev': dev, 'blocks': blocks, 'events': events}
+    return {'kind': 'info', 'plan': plan, 'dev': dev, 'blocks': blocks, 'events': events, 'early': early}
 
 
 def _forged_info(rng, n):
@@ -146,6 +148,9 @@ def systematic_info_cases():
             out.append(dict(base, events=[['F', True]] + inorder[:k] + [['F', True]] + inorder))
             out.append(dict(base, events=[['F', True]] + inorder[:k] + [['X'], ['F', True]] + inorder))
             out.append(dict(base, events=[['F', True]] + inorder[:k] + [['F', True]] + inorder[k:] + inorder[:k]))
+    for dev, blocks in devs:
+        out.append({'kind': 'info', 'plan': [], 'dev': dev, 'blocks': blocks, 'early': True,
+                    'events': [['F', True]] + [['D', k] for k in range(40)]})
     # a read registered after the disconnect clean-up (F02i), then the next session's refresh
     dev, blocks = devs[2]
     out.append({'kind': 'info', 'plan': [], 'dev': dev, 'blocks': blocks,
@@ -184,13 +189,15 @@ def iev_term(ev):
     raise ValueError(ev)
 
 
-def info_case_term(case):
+def info_case_term(case, events=None):
+    evs = case['events'] if events is None else events
     return 'irun_case true false false %s %s %s [%s]' % (coqrun.zlist(case['plan']), zdev(case['dev']), zblocks(case['blocks']),
-                                                      '; '.join(iev_term(e) for e in case['events']))
+                                                      '; '.join(iev_term(e) for e in evs))
 
 
 def run_info_impl(case):
     rig = c06_info.InfoRig(case['plan'], case['dev'], case['blocks'])
+    rig.early = bool(case.get('early'))
     out = []
     for ev in case['events']:
         out += rig.do(ev)
@@ -252,6 +259,7 @@ def judge_info(case, finish=True):
     case = {k: (list(v) if isinstance(v, list) else v) for k, v in case.items()}
     case['events'] = [list(e) for e in case['events']]
     rig = c06_info.InfoRig(case['plan'], case['dev'], case['blocks'])
+    rig.early = bool(case.get('early'))
     state = {'armed': False, 'fcb': False, 'forged': False, 'refused_ow': False, 'overlap': False, 'seen': 0, 'fail': None,
              'epoch': 0, 'info_seen': set()}          # log length at the latest refresh() / link drop: older info replies belong to an earlier enumeration
     delivered = set()
@@ -280,6 +288,8 @@ def judge_info(case, finish=True):
         armed_before, fcb_before = state['armed'], state['fcb']
         log_before = len(rig.log)
         rig.do(ev)
+        delivered.update(rig.early_done)
+        state['info_seen'].update(k for k in rig.early_done if rig.log[k][0] == 0)
         notes = []
         for item in rig.stream[state['seen']:]:
             if item[0] == 'refresh':
